@@ -733,6 +733,30 @@ def as_scope(res, pid, rng, tier):
                           "as_numbers": nums0, "generated_salt": a0.salt, "output": o0.getvalue()[:300], "output_of_a_run_with_that_salt": o1.getvalue()[:300]})
     except Exception as e:  # noqa
         fails.append({"kind": "AS anonymization without a salt raised", "as_numbers": nums0, "exc": repr(e)[:200]})
+    # library use: the caller goes on using (and changing) the list object it handed over; the anonymizer follows the values it was given
+    from netconan.sensitive_item_removal import anonymize_as_numbers as _aan
+    for edit in ("clear", "append", "replace"):
+        mine = ["65000", "64999", "701"]
+        try:
+            an_ = _AN(mine, "lateSalt")
+            ref_ = _AN(["65000", "64999", "701"], "lateSalt")
+            if edit == "clear":
+                del mine[:]
+            elif edit == "append":
+                mine.append("7018")
+            else:
+                mine[0] = "3356"
+            tl_ = "router bgp 65000\n neighbor 10.9.8.7 remote-as 64999 ! 701 3356 7018 65000x\n"
+            got_ = "".join(_aan(an_, l_) for l_ in tl_.splitlines(True))
+            exp_ = "".join(_aan(ref_, l_) for l_ in tl_.splitlines(True))
+            res.evaluations += 2
+            if got_ != exp_ or exp_ == tl_:
+                fails.append({"kind": "an AS anonymizer follows later changes of the list object it was constructed with instead of the numbers it was given",
+                              "as_numbers": ["65000", "64999", "701"], "list_after_construction": list(mine), "salt": "lateSalt", "input": tl_, "output": got_,
+                              "output_of_an_anonymizer_built_from_a_copy": exp_})
+        except Exception as e:  # noqa
+            fails.append({"kind": "AS anonymization raised", "detail": "the caller's list was changed (%s) after construction" % edit, "as_numbers": ["65000", "64999", "701"],
+                          "exc": repr(e)[:200]})
     return dis, fails
 
 
